@@ -182,7 +182,15 @@ _ACTIVE = None          # the Sim that is currently running, if any
 def _called_from_kingdon():
     f = sys._getframe(2)
     fn = f.f_code.co_filename if f else ''
-    return any(fn.startswith(kd) for kd in _KDIR)
+    if any(fn.startswith(kd) for kd in _KDIR):
+        return True
+    if fn == '<string>' and f is not None:
+        # dataclass-generated __init__ (a lock as a field default_factory of a kingdon dataclass)
+        owner = f.f_locals.get('self')
+        mod = getattr(type(owner), '__module__', '') or ''
+        if mod == 'kingdon' or mod.startswith('kingdon.'):
+            return True
+    return False
 
 
 _KDIR = []
